@@ -16,7 +16,7 @@ open StVerif.Search (CaseMode)
 open StVerif.Spec.Slice (firstOcc)
 
 /-- `fuel` only makes the recursion structural: a cut consumes at least one byte, so `|s| + 1`
-    rounds are never exhausted (`Lemmas/Split.splitAux_fuel`) -/
+    rounds are never exhausted (`Props.C09.spec_fuel_irrelevant`) -/
 def splitAux (cs : CaseMode) (sep : List Nat) : (fuel : Nat) → (max : Nat) → (s : List Nat) → List (List Nat)
   | 0, _, s => [s]
   | fuel + 1, max, s =>
